@@ -161,6 +161,14 @@ def main(c):
         c2 = vlib.Check('C16', 'exploration', ['--tier', c.tier])
         vlib.run_shards(c2, exe1, shards, cpu_limit=3000)
         files = [os.path.join(sh[4], fn) for sh in shards for fn in sorted(os.listdir(sh[4])) if fn.endswith('.parquet')]
+        # pure-Python page decoding runs at 1-2 MB/s per core: files above 4 MiB are taken up to a budget of 2 GiB per run, smallest first
+        small = [f for f in files if os.path.getsize(f) <= (4 << 20)]
+        budget = 2 << 30; taken = []
+        for f in sorted((f for f in files if os.path.getsize(f) > (4 << 20)), key=os.path.getsize):
+            if os.path.getsize(f) <= budget:
+                taken.append(f); budget -= os.path.getsize(f)
+        c.count('large_files_beyond_the_decoding_budget', len(files) - len(small) - len(taken))
+        files = small + taken
         with ProcessPoolExecutor(vlib.NCPU) as ex:
             results = list(ex.map(page_stats_one, files, chunksize=8))
         treat = 7
